@@ -1246,6 +1246,11 @@ func (e *Env) callExpr(ex *ast.CallExpr) (SVal, error) {
 	if strings.HasPrefix(fname, "is_") || strings.HasPrefix(fname, "has_") {
 		res = "Bool"
 	}
+	// the ordering of a type parameter (lt_T, le_T, gt_T, ge_T: what `<` ... on a generic numeric compile to) is a predicate
+	// also when the code under contract no longer compares anything - the clause is then decided, not left unbound
+	if regexp.MustCompile(`^(lt|le|gt|ge)_[A-Za-z]`).MatchString(fname) {
+		res = "Bool"
+	}
 	t := e.X.D.app(fname, ats, asorts, res)
 	if res == "Bool" {
 		return mkBool(t), nil
